@@ -128,9 +128,16 @@ def judge_privacy(chk, pkg: pg.Pkg, ss: StubSet, pubs: dict, api: dict | None, t
     for g in pg.walk(pkg):
         name_counts[g.path] = name_counts.get(g.path, 0) + 1
         leaf_counts[g.name] = leaf_counts.get(g.name, 0) + 1
+    # private classes that a public-named class derives from: their public-named members (methods, nested classes and
+    # what those contain) are shown in the subclass by design (C17) - no leak; their private-named members stay private
+    shown_bases = {b for g0 in pg.walk(pkg) if g0.kind in ("class", "nested-class") and not pg.is_private_name(g0.name) for b in getattr(g0.obj, "bases", []) if pg.is_private_name(b)}
     for g in pg.walk(pkg):
         pub = pubs[g.id]
         where = f"{g.kind}:{_why_private(pkg, g) if not pub.public else pub.via}"
+        inherited_at = next((i for i, part in enumerate(g.path) if part in shown_bases), None)
+        if pub.public is False and inherited_at is not None and len(g.path) > inherited_at + 1 and not any(pg.is_private_name(x) for x in g.path[inherited_at + 1 :]):
+            chk.counters["members_shown_through_a_public_subclass_not_judged"] += 1
+            continue
         if pub.public is False and g.kind != "ctor":
             kind = STUB_KIND[g.kind]
             occ = occurrences(ss, kind, alias_paths(pkg, g))
